@@ -14,3 +14,11 @@ Example anchor_set_index_kinds : set_index_counts_positional_kinds = true. Proof
 Example anchor_set_slice_min : set_slice_uses_min_index = true. Proof. reflexivity. Qed.
 Example anchor_set_slice_snapshot : set_slice_reads_snapshot = true. Proof. reflexivity. Qed.
 Example anchor_index_to_key_negative : index_to_key_rejects_negative = true. Proof. reflexivity. Qed.
+
+(* C01: PyCall.transform_build models the repaired transform_to_args_kwargs *)
+Example anchor_transform_fills : transform_fills_skipped_positionals = true. Proof. reflexivity. Qed.
+Example anchor_transform_posorkw :
+  transform_posorkw_condition = "include_pos_or_kw_in_args or self.var_positional_start in arguments".
+Proof. reflexivity. Qed.
+Example anchor_ordered_arguments_posonly : ordered_arguments_posonly_by_index = true.
+Proof. reflexivity. Qed.
